@@ -239,3 +239,101 @@ Proof.
   simpl. repeat split; auto; intros; try exact Logic.I.
   all: try (destruct rep; simpl; auto; split; auto; intros; exact Logic.I).
 Qed.
+
+(* ------------------------------------------------------------------------------------
+   Finished tasks are inert (Sched/InertBase.v, InertOps.v, InertLib.v, InertRun.v,
+   InertStatic.v, InertThms.v).  Inv09 leaves finished tasks unconstrained because the model is
+   total and lets foreign code complete a task's own future (side condition 2 of notes/C09.md).
+   Under the domain condition nec the missing half is an invariant too.
+
+   Vocabulary:
+     notaskb s f     f is not the future of any task of s (boolean)
+     op_nec s op     op is not OSetResult f / OSetExc f / OFutCancel f with f a task's future
+                     (asyncio: Task.set_result / set_exception raise, Task.cancel is not
+                     Future.cancel); every other operation is unrestricted
+     exec_nec t c s  op_nec for every library call executed while task t runs the code c from s
+     action_nec, nec s acts
+                     the same for an environment action / a whole run: the ADo operations and every
+                     library call of every step taken (run-checked, decided by computation)
+     act_nf, nofin   the static sufficient condition: the programs and ADo operations of the run
+                     never use OSetResult / OSetExc / OFutCancel at all
+     NDH s           no handle of a finished task is in the ready queue (Sched/InterruptNext.v)
+     XI c s          the inductive strengthening: (x_dead) a finished task has no queued handle and
+                     no wake-up callback on a pending future, (x_alive) the running task c is not
+                     finished, (x_ow) the future of task t has owner t, (x_ql, x_qc, x_qe, x_qh) every
+                     future id stored in a lock / condition / event waiter table or in a sleep-timer
+                     callback is an allocated plain future (owner None), (x_pl, x_pc) the waiter
+                     heaps satisfy the heap invariant. *)
+From Asynkit Require Import Sched.InterruptNext Sched.InertBase Sched.InertLib Sched.InertRun
+     Sched.InertStatic Sched.InertThms.
+
+Theorem C09_finished_tasks_inert :
+  (* in every state reachable under actions_ok + nec - list queue, priority queue, priority queue
+     with boosting (any factor, any draws) - Inv09 holds, no handle of a finished task is queued,
+     a finished task has no handle and no wake-up callback on a pending future *)
+  (forall factor draws lks cds nev acts,
+     let s0 := init_st false factor draws lks cds nev in
+     actions_ok s0 acts -> nec s0 acts ->
+     let s := fold_left do_action acts s0 in
+     Inv09 qok_list s /\ XI None s /\ NDH s /\
+     (forall t, t < List.length (tasks s) -> tdone s t = true ->
+        hcnt s t = 0 /\ forall g, fdone s g = false -> ccnt s t g = 0) /\
+     ~ In LEInvalidState (errors s)) /\
+  (forall draws lks cds nev acts,
+     let s0 := init_st true 0 draws lks cds nev in
+     actions_ok s0 acts -> nec s0 acts ->
+     let s := fold_left do_action acts s0 in
+     Inv09 qok_pos s /\ XI None s /\ NDH s /\
+     (forall t, t < List.length (tasks s) -> tdone s t = true ->
+        hcnt s t = 0 /\ forall g, fdone s g = false -> ccnt s t g = 0) /\
+     ~ In LEInvalidState (errors s)) /\
+  (forall factor draws lks cds nev acts,
+     let s0 := init_st true factor draws lks cds nev in
+     actions_ok s0 acts -> nec s0 acts ->
+     let s := fold_left do_action acts s0 in
+     Inv09 qok_boost s /\ XI None s /\ NDH s /\
+     (forall t, t < List.length (tasks s) -> tdone s t = true ->
+        hcnt s t = 0 /\ forall g, fdone s g = false -> ccnt s t g = 0) /\
+     ~ In LEInvalidState (errors s)) /\
+  (* for any ready queue meeting QSpec: XI beside Inv09 through every action, and inside steps
+     through every library call and every program, with the running task c not finished *)
+  (forall qok, QSpec qok ->
+     (forall s a, Inv09 qok s -> XI None s -> action_ok s a -> action_nec s a ->
+                  Inv09 qok (do_action s a) /\ XI None (do_action s a)) /\
+     (forall c t op s s' r, lib_call t op s = (s', r) -> PartTables.op_ok (List.length (blocks s)) op -> op_nec s op ->
+                            InvC qok c s -> XI c s -> InvC qok c s' /\ XI c s') /\
+     (forall c t c0 s s' o, exec t c0 s = (s', o) -> coro_ok (List.length (blocks s)) c0 -> exec_nec t c0 s ->
+                            InvC qok c s -> XI c s -> InvC qok c s' /\ XI c s') /\
+     (forall c s, InvC qok c s -> XI c s -> NDH s)) /\
+  (* nec is implied by a syntactic condition on the programs and outside calls of the run *)
+  (forall prio factor draws lks cds nev acts,
+     Forall act_nf acts -> nec (init_st prio factor draws lks cds nev) acts) /\
+  (* and it is what excludes the witness of notes/C09.md *)
+  (let acts := [ASpawn SPlain (Ret 0); ADo (OSetResult 0 1)] in
+   actions_ok (init_st false 0 [] [] [] 0) acts /\ ~ nec (init_st false 0 [] [] [] 0) acts).
+Proof.
+  split; [exact inert_reach_list|]. split; [exact inert_reach_pos|]. split; [exact inert_reach_boost|].
+  split.
+  - intros qok QS. split; [|split; [|split]].
+    + intros s a J X Ha Hn. split; [apply (Inv09_action qok QS); auto|apply (inert_action qok QS); auto].
+    + intros c t op s s' r E Hop Hn I X.
+      destruct (lib_call_KX qok QS c t op s s' r E Hop Hn I X) as [[I' _] X']. auto.
+    + intros c t c0 s s' o E Hok Hn I X.
+      destruct (exec_KX qok QS c t c0 s s' o E Hok Hn I X) as [[I' _] X']. auto.
+    + intros c s I X. exact (NDH_of_inert qok c s I X).
+  - split; [exact nec_static_init|exact nec_excludes_witness].
+Qed.
+Print Assumptions C09_finished_tasks_inert.
+
+(* non-vacuity: a run in which a task completes a PLAIN future with set_result (allowed by nec),
+   two tasks finish, a third is cancelled from outside: the hypotheses hold (nec by computation)
+   and the three tasks end finished with an empty ready queue and no loop error *)
+Example C09_example_inert :
+  actions_ok ix_s0 ix_acts /\ nec ix_s0 ix_acts /\
+  Inv09 qok_list ix_state /\ NDH ix_state /\
+  (forall t, t < List.length (tasks ix_state) -> tdone ix_state t = true ->
+     hcnt ix_state t = 0 /\ forall g, fdone ix_state g = false -> ccnt ix_state t g = 0) /\
+  tdone ix_state 0 = true /\ tdone ix_state 1 = true /\ tdone ix_state 2 = true /\
+  fstate_ (getf ix_state 1) = FResult 7 /\ log ix_state = [(2, 2%Z); (1, 1%Z)] /\
+  rq_items (ready ix_state) = [] /\ errors ix_state = [].
+Proof. exact inert_example. Qed.
